@@ -56,6 +56,7 @@ type Monitors struct {
 	storedIDs    map[string]bool // payload ids ever stored on any server
 	taint        string
 	lease        *leaseState
+	reported     map[int][3]uint64 // per node: last index, last term, current term reported at the latest quiescent point
 	electCommit  map[[2]int]uint64 // commit index of a server at the instant it became leader
 	convFlagged  bool
 	convReached  bool
@@ -73,7 +74,7 @@ type Monitors struct {
 func newMonitors(w *World) *Monitors {
 	return &Monitors{w: w, agreed: map[uint64]fact{}, leaders: map[uint64]int{}, senders: map[uint64]int{}, streams: map[[2]int]*fsmStream{},
 		lastCommit: map[[2]int]uint64{}, lastTerm: map[int]uint64{}, grants: map[grantKey]string{}, notify: map[[2]int][]bool{}, leadGains: map[[2]int]int{},
-		storedIDs: map[string]bool{}, transitions: map[[2]int]int{}, wasLeader: map[[2]int]bool{}, leaderAt: map[uint64]leaderRec{}, restoreFloor: map[[2]int]uint64{}, floorByData: map[string]uint64{}, isSeen: map[string]*isRec{}, electCommit: map[[2]int]uint64{}}
+		storedIDs: map[string]bool{}, transitions: map[[2]int]int{}, wasLeader: map[[2]int]bool{}, leaderAt: map[uint64]leaderRec{}, restoreFloor: map[[2]int]uint64{}, floorByData: map[string]uint64{}, isSeen: map[string]*isRec{}, electCommit: map[[2]int]uint64{}, reported: map[int][3]uint64{}}
 }
 
 // rootCause records a violation that is the origin of others: every later
@@ -182,10 +183,27 @@ func (m *Monitors) OnBooted(node, inc int, r *raft.Raft) {
 	if fmt.Sprint(got.Servers) != fmt.Sprint(cfg.Servers) {
 		m.fail("C10", "configuration-not-restored", "n%d.%d reports configuration %v, durable state says %v", node, inc, got.Servers, cfg.Servers)
 	}
+	if rep, ok := m.reported[node]; ok {
+		// the previous incarnation was stopped at rest: the new one resumes with the log it had reported
+		d1 := r.VerifDump()
+		lt := d1.LastLogTerm
+		if d1.LastSnapIndex > d1.LastLogIndex {
+			lt = d1.LastSnapTerm
+		}
+		if r.LastIndex() != rep[0] || lt != rep[1] {
+			m.fail("C10", "log-differs-from-before-the-crash", "n%d reported last entry (%d, term %d) before it was stopped at rest; restarted as n%d.%d it reports (%d, term %d)", node, rep[0], rep[1], node, inc, r.LastIndex(), lt)
+		}
+		delete(m.reported, node)
+	}
 	m.checkTermMonotone(node, r.CurrentTerm(), "restart")
 }
 
-func (m *Monitors) OnCrash(node, inc int) {}
+// OnCrash: mid = the crash happens inside a storage operation (the durable image may be ahead of what was reported).
+func (m *Monitors) OnCrash(node, inc int, mid bool) {
+	if mid {
+		delete(m.reported, node)
+	}
+}
 
 func (m *Monitors) OnServerPanic(node, inc int, v any, stack string) {
 	msg := fmt.Sprint(v)
@@ -648,6 +666,12 @@ func (m *Monitors) AtQuiescent() {
 			m.fail("C05", "commit-above-last", "n%d.%d commit index %d exceeds last index %d", n.id, n.inc, ci, r.LastIndex())
 		}
 		m.checkTermMonotone(n.id, r.CurrentTerm(), "running")
+		d0 := r.VerifDump()
+		lt := d0.LastLogTerm
+		if d0.LastSnapIndex > d0.LastLogIndex {
+			lt = d0.LastSnapTerm
+		}
+		m.reported[n.id] = [3]uint64{r.LastIndex(), lt, r.CurrentTerm()}
 		if r.State() == raft.Leader {
 			leadersUp = append(leadersUp, n)
 		}
